@@ -361,6 +361,13 @@ theorem decomp_checker_sound (A : SpMat R) (p q : Array Nat) (blocks : List (SpM
       ∀ (i : Fin A.nrows) (j : Fin A.ncols), entry A i j = bdEntry blocks (σ i) (τ j) :=
   checkDecomp_sound A p q blocks h
 
+/-- **no block splits further (checker form).** `connectedBlk` is run by the driver on every REAL block returned
+for an input without stored zeros (request `chkconn`).  If it accepts, there is no set `S` of rows/columns of
+the block, non-empty with non-empty complement, such that no stored non-zero entry joins `S` with its
+complement — i.e. the block is not a direct sum of two smaller blocks (nor has a zero row/column). -/
+theorem block_connected_checker_sound {α : Type} [Scal α] (B : SpMat α) (hc : connectedBlk B = true)
+    (S : Nat → Prop) : ¬ Splits B S := connectedBlk_sound B hc S
+
 example : checkDecomp (α := Int) ⟨2, 2, #[[(1, 5)], [(0, 7)]]⟩ #[1, 0] #[0, 1] [⟨1, 1, #[[(0, 5)]]⟩, ⟨1, 1, #[[(0, 7)]]⟩] = true := by
   decide +kernel
 
